@@ -608,7 +608,7 @@ Definition ex_flag : field := mkField [118] SynPath TBool (KLong [118]) None Non
 Definition ex_opt : field := mkField [111] (SynOption SynPath) TU8 (KLong [111]) None None None None None false.
 Definition ex_nodes : nodes := NCons (NArg ex_flag) (NCons (NArg ex_opt) NNil).
 Definition ex_input : dinput := mkDinput b_prog [83] ex_nodes.
-Definition ex_enum : venum := [mkVv false {| pv_name := [97]; pv_aliases := [[98]] |}; mkVv true {| pv_name := [99]; pv_aliases := [] |}].
+Definition ex_enum : venum := [mkVv false {| pv_name := [97]; pv_aliases := [[98]] |} false; mkVv true {| pv_name := [99]; pv_aliases := [] |} false].
 
 Example wf_example : wf_nodes ex_nodes.
 Proof. cbn. unfold disjoint. cbn. intuition congruence. Qed.
